@@ -302,6 +302,16 @@ class _Owner:
                 func=ast.Attribute(ast.Name(me, ast.Load()), self.fname("set_" + f.attr), ast.Load()),
                 args=value.args, keywords=value.keywords))
             return [ast.copy_location(new, at)]
+        if (
+            self.b.is_dataclass and isinstance(f, ast.Attribute) and _is_self_attr(f.value, me, self.attr)
+            and f.attr in self.b.methods and self._is_rebuilder(self.b.methods[f.attr])
+        ):
+            # self.x = self.x.restarted(...)  where restarted returns B(f=self.f, ...)
+            self.need.add("=" + f.attr)
+            new = ast.Expr(ast.Call(
+                func=ast.Attribute(ast.Name(me, ast.Load()), self.fname("set_" + f.attr), ast.Load()),
+                args=value.args, keywords=value.keywords))
+            return [ast.copy_location(new, at)]
         if isinstance(f, ast.Name) and f.id in self.mod_factories:
             self.need.add("." + f.id)
             new = ast.Expr(ast.Call(
@@ -315,6 +325,18 @@ class _Owner:
                 args=value.args, keywords=value.keywords))
             return [ast.copy_location(new, at)]
         return None
+
+    def _is_rebuilder(self, m: ast.FunctionDef) -> bool:
+        """The method's body is ``return <Bundle>(...)``: the record rebuilt
+        from its own fields."""
+        body = [x for x in m.body if not (isinstance(x, ast.Expr) and isinstance(x.value, ast.Constant))]
+        if len(body) != 1 or not isinstance(body[0], ast.Return) or not m.args.args:
+            return False
+        v = body[0].value
+        return (
+            isinstance(v, ast.Call) and isinstance(v.func, ast.Name) and v.func.id == self.b.name
+            and not any(isinstance(a, ast.Starred) for a in v.args) and all(k.arg is not None for k in v.keywords)
+        )
 
     @staticmethod
     def _is_updater(m: ast.FunctionDef) -> bool:
@@ -520,7 +542,30 @@ class _Owner:
             f.returns = None
             me = f.args.args[0].arg
             body = [x for x in f.body if not (isinstance(x, ast.Expr) and isinstance(x.value, ast.Constant))]
-            kws = body[0].value.keywords
+            if isinstance(body[0].value.func, ast.Name):
+                # `return B(f=.., g=..)`: every field is given or takes its default;
+                # a field handed on unchanged (`f=self.f`) is left alone
+                call = body[0].value
+                init_fields = [fl for fl in b.fields if fl[2]]
+                if len(call.args) > len(init_fields):
+                    raise _Abort("too many constructor arguments")
+                given = {fl[0]: a for fl, a in zip(init_fields, call.args)}
+                for k in call.keywords:
+                    if k.arg in given or k.arg not in {fl[0] for fl in init_fields}:
+                        raise _Abort("unknown/duplicate constructor keyword")
+                    given[k.arg] = k.value
+                kws = []
+                for fname_, default, _ in b.fields:
+                    v = given.get(fname_)
+                    if v is None:
+                        if default is None:
+                            raise _Abort(f"required field {fname_} not given")
+                        v = copy.deepcopy(default)
+                    if isinstance(v, ast.Attribute) and isinstance(v.value, ast.Name) and v.value.id == me and v.attr == fname_:
+                        continue
+                    kws.append(ast.keyword(arg=fname_, value=v))
+            else:
+                kws = body[0].value.keywords
             if any(k.arg not in b.field_names for k in kws):
                 raise _Abort("_replace with unknown fields")
             written: set[str] = set()
@@ -662,9 +707,15 @@ def _candidates(tree: ast.Module, rel: str | None = None, all_trees: dict | None
     """(owner class, attribute, bundle class node) triples of a module.
     ``foreign`` receives {bundle class name: module file} for bundle classes
     that are imported from another module of the package."""
+    from .baseline_api import ALL_CLASSES
+
+    def _bundle_name(name):
+        # a private class, or one the pinned tree does not have at all
+        return not name.startswith("__") and (name.startswith("_") or name not in ALL_CLASSES)
+
     privates = {
         n.name: n for n in tree.body
-        if isinstance(n, ast.ClassDef) and n.name.startswith("_") and not n.name.startswith("__")
+        if isinstance(n, ast.ClassDef) and _bundle_name(n.name)
     }
     if rel is not None and all_trees:
         from .imports_canon import _abs_module
@@ -678,7 +729,7 @@ def _candidates(tree: ast.Module, rel: str | None = None, all_trees: dict | None
                 if t2 is None or cand == rel:
                     continue
                 for a in st.names:
-                    if a.asname or not a.name.startswith("_") or a.name.startswith("__") or a.name in privates:
+                    if a.asname or not _bundle_name(a.name) or a.name in privates:
                         continue
                     cdef = next((n for n in t2.body if isinstance(n, ast.ClassDef) and n.name == a.name), None)
                     if cdef is not None:
@@ -902,7 +953,9 @@ def _dealias_bound_methods(tree: ast.Module) -> list[str]:
             if isinstance(n, (ast.FunctionDef, ast.AsyncFunctionDef, ast.Lambda, ast.ClassDef)):
                 nested_names |= {x.id for x in ast.walk(n) if isinstance(x, ast.Name)}
         declared = {nm for n in _own_walk(fn) if isinstance(n, (ast.Global, ast.Nonlocal)) for nm in n.names}
-        for i, st in enumerate(list(fn.body)):
+        # function level, and the bodies of its for-loops (`for s in subs: hook = s.update; hook(x)`)
+        blocks = [fn.body] + [n.body for n in _own_walk(fn) if isinstance(n, ast.For) and not n.orelse]
+        for blk, i, st in [(b, i, st) for b in blocks for i, st in enumerate(list(b))]:
             if not (isinstance(st, ast.Assign) and len(st.targets) == 1 and isinstance(st.targets[0], ast.Name)):
                 continue
             name, v = st.targets[0].id, st.value
@@ -926,13 +979,20 @@ def _dealias_bound_methods(tree: ast.Module) -> list[str]:
             calls = {id(n.func) for n in _own_walk(fn) if isinstance(n, ast.Call) and isinstance(n.func, ast.Name) and n.func.id == name}
             if not uses or any(id(u) not in calls for u in uses):
                 continue
+            if blk is not fn.body:
+                # inside a loop body: every use follows the binding in that very block
+                if st not in blk:
+                    continue
+                later = {id(x) for y in blk[blk.index(st) + 1:] for x in ast.walk(y)}
+                if any(id(u) not in later for u in uses):
+                    continue
             # the local receiver must be bound before the alias (no use-before-def games)
             for n in _own_walk(fn):
                 if isinstance(n, ast.Call) and isinstance(n.func, ast.Name) and n.func.id == name:
                     n.func = ast.copy_location(copy.deepcopy(v), n.func)
-            fn.body.remove(st)
-            if not fn.body:
-                fn.body.append(ast.copy_location(ast.Pass(), st))
+            blk.remove(st)
+            if not blk:
+                blk.append(ast.copy_location(ast.Pass(), st))
             notes.append(f"{fn.name}: bound-method alias `{name} = {ast.unparse(v)}` undone")
     return notes
 
@@ -1051,6 +1111,199 @@ def _materialise_method_aliases(tree: ast.Module, rel: str, sources, parsed) -> 
     return notes
 
 
+def _unroll_constant_tables(tree: ast.Module) -> list[str]:
+    """``for key, name in _TABLE: setattr(self, name, f(key))`` with ``_TABLE``
+    a module-level tuple / list of constant rows: the loop is written out row by
+    row and ``setattr(obj, "x", v)`` / ``getattr(obj, "x")`` with the now
+    constant name become ``obj.x = v`` / ``obj.x`` - a table-driven spelling of
+    plain attribute stores, which the attribute-level analyses need to see.
+    Only for loops without break / continue / else whose body uses one of the
+    loop variables as the name argument of setattr / getattr; at most 8 rows."""
+    notes = []
+    tables = {}
+    for st in tree.body:
+        tg = st.targets[0] if isinstance(st, ast.Assign) and len(st.targets) == 1 else st.target if isinstance(st, ast.AnnAssign) and st.value is not None else None
+        if isinstance(tg, ast.Name) and isinstance(st.value, (ast.Tuple, ast.List)) and 0 < len(st.value.elts) <= 8:
+            tables[tg.id] = st.value
+
+    def const_cell(e):
+        if isinstance(e, ast.Constant):
+            return True
+        x = e
+        while isinstance(x, ast.Attribute):
+            x = x.value
+        return isinstance(x, ast.Name) and isinstance(e, (ast.Attribute, ast.Name))
+
+    class Sub(ast.NodeTransformer):
+        def __init__(self, m):
+            self.m = m
+
+        def visit_Name(self, n):
+            if isinstance(n.ctx, ast.Load) and n.id in self.m:
+                return ast.copy_location(copy.deepcopy(self.m[n.id]), n)
+            return n
+
+    class Deref(ast.NodeTransformer):
+        def visit_Expr(self, e):
+            self.generic_visit(e)
+            c = e.value
+            if (
+                isinstance(c, ast.Call) and isinstance(c.func, ast.Name) and c.func.id == "setattr" and len(c.args) == 3 and not c.keywords
+                and isinstance(c.args[1], ast.Constant) and isinstance(c.args[1].value, str) and c.args[1].value.isidentifier()
+            ):
+                a = ast.Assign(targets=[ast.Attribute(value=c.args[0], attr=c.args[1].value, ctx=ast.Store())], value=c.args[2], type_comment=None)
+                return ast.copy_location(a, e)
+            return e
+
+        def visit_Call(self, c):
+            self.generic_visit(c)
+            if (
+                isinstance(c.func, ast.Name) and c.func.id == "getattr" and len(c.args) == 2 and not c.keywords
+                and isinstance(c.args[1], ast.Constant) and isinstance(c.args[1].value, str) and c.args[1].value.isidentifier()
+            ):
+                return ast.copy_location(ast.Attribute(value=c.args[0], attr=c.args[1].value, ctx=ast.Load()), c)
+            return c
+
+    for fn in [n for n in ast.walk(tree) if isinstance(n, (ast.FunctionDef, ast.AsyncFunctionDef))]:
+        stored = {x.id for x in ast.walk(fn) if isinstance(x, ast.Name) and isinstance(x.ctx, ast.Store)}
+        for holder in ast.walk(fn):
+            for fld in ("body", "orelse", "finalbody"):
+                blk = getattr(holder, fld, None)
+                if not (isinstance(blk, list) and blk and isinstance(blk[0], ast.stmt)):
+                    continue
+                i = 0
+                while i < len(blk):
+                    lp = blk[i]
+                    i += 1
+                    if not (isinstance(lp, ast.For) and not lp.orelse and isinstance(lp.iter, ast.Name) and lp.iter.id in tables and lp.iter.id not in stored):
+                        continue
+                    names = [lp.target.id] if isinstance(lp.target, ast.Name) else (
+                        [e.id for e in lp.target.elts] if isinstance(lp.target, ast.Tuple) and all(isinstance(e, ast.Name) for e in lp.target.elts) else None)
+                    if not names or any(isinstance(x, (ast.Break, ast.Continue)) for x in ast.walk(lp)):
+                        continue
+                    uses_reflection = any(
+                        isinstance(x, ast.Call) and isinstance(x.func, ast.Name) and x.func.id in ("setattr", "getattr") and len(x.args) >= 2
+                        and isinstance(x.args[1], ast.Name) and x.args[1].id in names for x in ast.walk(lp)
+                    )
+                    if not uses_reflection:
+                        continue
+                    if any(isinstance(x, ast.Name) and isinstance(x.ctx, ast.Store) and x.id in names for st in lp.body for x in ast.walk(st)):
+                        continue
+                    rows = tables[lp.iter.id].elts
+                    ok = True
+                    maps = []
+                    for r in rows:
+                        cells = list(r.elts) if isinstance(r, (ast.Tuple, ast.List)) and len(names) > 1 else [r]
+                        if len(cells) != len(names) or not all(const_cell(c) for c in cells):
+                            ok = False
+                            break
+                        maps.append(dict(zip(names, cells)))
+                    if not ok:
+                        continue
+                    new = []
+                    for m in maps:
+                        for st in lp.body:
+                            cp = Deref().visit(Sub(m).visit(copy.deepcopy(st)))
+                            new.append(ast.copy_location(cp, st))
+                    blk[i - 1:i] = new
+                    i += len(new) - 1
+                    notes.append(f"{fn.name}: loop over the constant table `{lp.iter.id}` written out ({len(maps)} rows); setattr/getattr with constant names spelt as attributes")
+    return notes
+
+
+def _specialise_name_selectors(tree: ast.Module) -> list[str]:
+    """A private function / method that picks the attribute to use by a
+    name it is handed (`def _notify(self, event, *args): ...
+    getattr(subscriber, event)(*args)`) is cloned per literal it is called
+    with in this module: `self._notify("update", op)` becomes
+    `self._notify__update(op)`, whose body says `subscriber.update(*args)`.
+    The original stays (callers elsewhere, non-literal calls).  Only when the
+    parameter is used as the name argument of two-argument getattr() calls
+    and nowhere else."""
+    notes: list[str] = []
+
+    def scan(owner_body, cls: ast.ClassDef | None):
+        for f in list(owner_body):
+            if not isinstance(f, ast.FunctionDef) or not f.name.startswith("_") or f.name.startswith("__") or f.decorator_list:
+                continue
+            a = f.args
+            if a.posonlyargs or a.kwarg:
+                continue
+            params = [x.arg for x in a.args]
+            first = 1 if cls is not None else 0
+            for p in params[first:]:
+                uses = [n for n in ast.walk(f) if isinstance(n, ast.Name) and n.id == p]
+                gets = [
+                    n for n in ast.walk(f)
+                    if isinstance(n, ast.Call) and isinstance(n.func, ast.Name) and n.func.id == "getattr" and len(n.args) == 2 and not n.keywords
+                    and isinstance(n.args[1], ast.Name) and n.args[1].id == p
+                ]
+                if not gets or len(uses) != len(gets) or any(not isinstance(u.ctx, ast.Load) for u in uses):
+                    continue
+                idx = params.index(p) - first
+                # defaults are aligned to the end of the parameter list
+                if len(a.defaults) > len(params) - 1 - params.index(p):
+                    continue  # the parameter (or one before it) has a default: keep it simple
+                made: dict[str, str] = {}
+                scope = cls if cls is not None else tree
+                for c in [n for n in ast.walk(scope) if isinstance(n, ast.Call)]:
+                    fn = c.func
+                    if cls is not None:
+                        if not (isinstance(fn, ast.Attribute) and fn.attr == f.name and isinstance(fn.value, ast.Name) and fn.value.id in ("self", "cls")):
+                            continue
+                    elif not (isinstance(fn, ast.Name) and fn.id == f.name):
+                        continue
+                    if any(isinstance(x, ast.Starred) for x in c.args[: idx + 1]):
+                        continue
+                    lit, where = None, None
+                    if idx < len(c.args):
+                        lit, where = c.args[idx], ("pos", idx)
+                    else:
+                        for k in c.keywords:
+                            if k.arg == p:
+                                lit, where = k.value, ("kw", k)
+                    if not (isinstance(lit, ast.Constant) and isinstance(lit.value, str) and lit.value.isidentifier()):
+                        continue
+                    name = f"{f.name}__{lit.value}"
+                    if name not in made:
+                        clone = copy.deepcopy(f)
+                        clone.name = name
+                        clone.args.args = [x for x in clone.args.args if x.arg != p]
+
+                        class _G(ast.NodeTransformer):
+                            def visit_Call(self, n):
+                                self.generic_visit(n)
+                                if (
+                                    isinstance(n.func, ast.Name) and n.func.id == "getattr" and len(n.args) == 2 and not n.keywords
+                                    and isinstance(n.args[1], ast.Name) and n.args[1].id == p
+                                ):
+                                    return ast.copy_location(ast.Attribute(value=n.args[0], attr=lit.value, ctx=ast.Load()), n)
+                                return n
+
+                        _G().visit(clone)
+                        owner_body.insert(owner_body.index(f) + 1, clone)
+                        made[name] = lit.value
+                    if where[0] == "pos":
+                        del c.args[idx]
+                    else:
+                        c.keywords.remove(where[1])
+                    if cls is not None:
+                        fn.attr = name
+                    else:
+                        fn.id = name
+                if made:
+                    notes.append(f"{(cls.name + '.') if cls else ''}{f.name}: cloned per literal `{p}` ({', '.join(sorted(made.values()))}); getattr with that name spelt as attribute access")
+                    break  # one selector parameter per function
+
+    scan(tree.body, None)
+    for c in tree.body:
+        if isinstance(c, ast.ClassDef):
+            scan(c.body, c)
+    if notes:
+        ast.fix_missing_locations(tree)
+    return notes
+
+
 def unbundle(sources: dict[str, str]):
     """``{rel: src}`` -> (``{rel: new src}`` for rewritten modules, notes,
     line maps).  Modules that need nothing or cannot be rewritten safely are
@@ -1062,6 +1315,10 @@ def unbundle(sources: dict[str, str]):
     dealiased = {}
     parsed: dict[str, ast.Module] = {}
     from . import imports_canon
+    from .baseline_api import ALL_CLASSES as _ALL_CLASSES
+    from .baseline_imports import EXTERNAL as _EXT
+
+    _BASELINE_IMPORTED = {k.rsplit(".", 1)[-1] for k in _EXT}
 
     package_modules = {imports_canon._rel_to_mod(r) for r in sources}
     from . import api_fold
@@ -1074,7 +1331,7 @@ def unbundle(sources: dict[str, str]):
             continue
     # package-wide passes first (API evolution folded back, see api_fold.py)
     global_notes: dict[str, list[str]] = {}
-    for gpass in (api_fold.pull_down_new_bases, api_fold.unencapsulate, api_fold.fold_aliases):
+    for gpass in (api_fold.pull_down_new_bases, api_fold.pull_down_displaced_methods, api_fold.unencapsulate, api_fold.fold_aliases):
         for r2, ns2 in gpass(all_trees).items():
             global_notes.setdefault(r2, []).extend(ns2)
     for rel, src in sources.items():
@@ -1084,13 +1341,25 @@ def unbundle(sources: dict[str, str]):
         ns = list(global_notes.get(rel, [])) if rel in global_notes else []
         touched = rel in global_notes
         ns += imports_canon.canonicalise(tree, rel, package_modules)
+        if "getattr(" in src:
+            ns += _specialise_name_selectors(tree)  # before the bound-method pass: `hook = getattr(s, name); hook(*args)`
         ns += _dealias_bound_methods(tree)
         ns += _materialise_method_aliases(tree, rel, sources, parsed)
+        if "setattr(" in src or "getattr(" in src:
+            ns += _unroll_constant_tables(tree)
         if ns or touched:
             dealiased[rel] = ns or ["names folded back (see the defining module)"]
             trees[rel] = tree
         elif "class _" in src or any(
             isinstance(st_, ast.ImportFrom) and any(a_.name[:1] == "_" and a_.name[1:2].isupper() for a_ in st_.names) for st_ in tree.body
+        ) or any(
+            # ... or a class the pinned tree does not have at all (its own, or imported from a module of the package)
+            (isinstance(st_, ast.ClassDef) and st_.name not in _ALL_CLASSES)
+            or (
+                isinstance(st_, ast.ImportFrom) and (st_.level or (st_.module or "").split(".")[0] == "job_shop_lib")
+                and any(a_.name[:1].isupper() and not a_.name.isupper() and a_.name not in _ALL_CLASSES and a_.name not in _BASELINE_IMPORTED for a_ in st_.names)
+            )
+            for st_ in tree.body
         ):
             trees[rel] = tree  # may own a private bundle class (its own, or one imported from a sibling module)
     for rel, tree in trees.items():
